@@ -83,7 +83,7 @@ class Tree:
 
 
 EDITS = ["noop", "add_file", "add_dir", "remove_file", "remove_dir", "rename_file", "retype_file_to_dir", "retype_dir_to_file", "content_size", "content_same_size",
-         "mtime_only", "replace_by_rename", "add_excluded", "content_excluded", "retarget_link", "add_file_deep"]
+         "mtime_only", "replace_by_rename", "add_excluded", "content_excluded", "retarget_link", "add_file_deep", "add_keep_dir_mtime"]
 
 
 def apply_edit(t, kind, patterns):
@@ -101,6 +101,24 @@ def apply_edit(t, kind, patterns):
         if excluded(rel, patterns):
             return None
         sb.write("tree/" + rel, "new file\n"); t.files.add(rel); t.retouch_dirs(rel)
+        return (rel, "structural")
+    if kind == "add_keep_dir_mtime":
+        # an entry appears but the containing directory's own stat record is put back (touch -r, a time-preserving extract):
+        # only reading the listing again can notice it
+        d = rnd.choice(all_dirs); name = t.newname()
+        rel = (d + "/" + name) if d else name
+        if excluded(rel, patterns):
+            return None
+        dpath = sb.p("tree/" + d if d else "tree")
+        st = os.stat(dpath)
+        if rnd.random() < 0.5:
+            sb.write("tree/" + rel, "new file\n"); t.files.add(rel)
+        else:
+            rel = rel.replace(".", "_"); os.makedirs(sb.p("tree/" + rel)); t.dirs.add(rel); sb.touch("tree/" + rel)
+        os.utime(dpath, ns=(st.st_atime_ns, st.st_mtime_ns))
+        st2 = os.stat(dpath)
+        if (st2.st_mtime_ns, st2.st_size, st2.st_ino) != (st.st_mtime_ns, st.st_size, st.st_ino):
+            return (rel, "structural")   # the file system changed the record anyway; still a structural change
         return (rel, "structural")
     if kind == "add_dir":
         d = rnd.choice(all_dirs); name = t.newname().replace(".", "_")
@@ -291,7 +309,7 @@ def run(tier, replay):
         chk.cov["cases"] = len(results)
         chk.cov["rule"] = ("case = (spelling of the directory input: trailing-slash name, type: directory, is-directory, is-directory-structure, type: directory-structure on names with and "
                            "without slash) x (exclusion patterns or none) x random tree (depth<=3, files, directories, symlink out of the tree, symlink loop to the root) x sequence of edits "
-                           "{no-op, add/remove/rename file or dir, retype, content with/without size change, mtime only, replace by rename, edits of excluded names, link retarget}, a new "
+                           "{no-op, add/remove/rename file or dir, add with the directory's own mtime restored, retype, content with/without size change, mtime only, replace by rename, edits of excluded names, link retarget}, a new "
                            "process per build; three-valued expectation from the property text (pattern semantics = libc fnmatch via ctypes); observed = whether the consuming command appears "
                            "in its own run log; distinct = (node kind, patterns?, edit kind, depth, spelling) classes judged")
         chk.assumptions = ["directory listings are only changed by the harness between builds", "replace-by-rename under a structure node, and additions/removals of excluded names under a tree node (the parent directory's mtime is part of its signature), are not judged"]
